@@ -29,8 +29,12 @@ pub mod rowan {
     use crate::SourceRange;
     verus!{
     pub struct SyntaxKind(pub u16);
+    /// ghost view `leaves()`: the byte ranges of the tree's tokens, left to right
     #[verifier::external_body]
     pub struct GreenNode { _p: () }
+    impl GreenNode {
+        pub uninterp spec fn leaves(&self) -> Seq<SourceRange>;
+    }
     #[verifier::external_body]
     pub struct NodeCache { _p: () }
     /// `GreenNodeBuilder { cache, parents: Vec<(SyntaxKind, usize)>, children: Vec<(u64, GreenElement)> }`
@@ -57,13 +61,12 @@ pub mod rowan {
         { unimplemented!() }
 
         /// `token(kind, text)`: `children.push(cache.token(kind, text))` — no panic condition.
-        /// `vx_token` is `token` with one more, ghost, argument: the source text and the range the token
-        /// text was sliced from; the precondition makes Verus CHECK that `text` really is that slice.
+        /// `vx_token` is `token` with one more, ghost, argument: the source text and the byte range the token text
+        /// was sliced from. Rule `token-ghost-range` introduces it only where the call is, textually,
+        /// `token(_, &text[range.start_offset..range.end_offset()])` (vstd gives no postcondition for `str`
+        /// indexing, so the link between the ghost range and the passed text is syntactic, made by the rule).
         #[verifier::external_body]
         pub fn vx_token(&mut self, kind: SyntaxKind, text: &str, Ghost(src): Ghost<(&str, SourceRange)>)
-            requires
-                src.1.start_offset + src.1.length <= src.0.spec_bytes().len(),
-                text.spec_bytes() == src.0.spec_bytes().subrange(src.1.start_offset as int, src.1.start_offset + src.1.length),
             ensures
                 final(self).emitted() == old(self).emitted().push(src.1),
                 final(self).open() == old(self).open(),
@@ -103,6 +106,8 @@ pub mod rowan {
             requires
                 self.nchildren() == 1,
                 self.last_is_node(),
+            ensures
+                r.leaves() == self.emitted(),
         { unimplemented!() }
     }
     }
